@@ -250,8 +250,6 @@ def parse_read_multiple_variable_rsp(pdu: bytes):
         if len(val) < ln and off + 2 + len(val) != len(pdu):
             raise Malformed('truncated tuple that is not the last')
         off += 2 + ln
-    if not out:
-        raise Malformed('empty read multiple variable response')
     return out
 
 
@@ -388,7 +386,10 @@ class Pairing:
 
     # -- evaluation -----------------------------------------------------------
     def close(self, r, ctx: str = ''):
-        """Quiescence: every request of the window must have exactly one reply."""
+        """Quiescence: every request of the window must have exactly one reply.
+        Returns the number of requests left without a reply (the bearer is then dead
+        for a real client: Part F 3.3.3 transaction timeout)."""
+        unanswered = 0
         sent = collections.Counter()
         labels = collections.defaultdict(set)
         for op, label, _pdu in self.window:
@@ -415,21 +416,36 @@ class Pairing:
             ls = labels.get(op) or {''}
             return sorted(ls)[0] if len(ls) == 1 else 'mixed'
 
+        # defined requests, in the order they were sent: each consumes one reply naming its
+        # opcode. Only the first unanswered request of a window is reported (after it the
+        # bearer is dead for a client, so later silence is a consequence, not a new fact).
+        left = collections.Counter(answered)
+        pipelined = len(self.window) > 1
+        for op, label, pdu in self.window:
+            if classify(op) != 'request':
+                continue
+            r.ev('requests_judged')
+            r.ev('oracle_evals')
+            if left.get(op, 0) > 0:
+                left[op] -= 1
+                r.ev('requests_answered_once')
+                continue
+            unanswered += 1
+            if unanswered == 1:
+                # in a pipelined window neither the culprit nor the victim can be told apart
+                r.bad(f'pairing/no-reply/{opname(op)}/{"pipelined" if pipelined else label}/{self.kind}',
+                      f'{opname(op)} [{label}] got no reply at quiescence ({sent[op]} sent, {answered.get(op, 0)} replies naming '
+                      f'it); {ctx}; pdu={pdu[:32].hex()}')
+            else:
+                r.ev('requests_unanswered_after_first')
         for op, n in sent.items():
             cls = classify(op)
             got = answered.get(op, 0)
             if cls == 'request':
-                r.ev('requests_judged', n)
-                r.ev('oracle_evals', n)
-                if got < n:
-                    r.bad(f'pairing/no-reply/{opname(op)}/{lab(op)}/{self.kind}',
-                          f'{n} x {opname(op)} sent, {got} replies at quiescence; {ctx}; '
-                          f'first={next(p for o, _l, p in self.window if o == op)[:32].hex()}')
-                elif got > n:
+                if got > n:
+                    r.ev('oracle_evals')
                     r.bad(f'pairing/multiple-replies/{opname(op)}/{lab(op)}/{self.kind}',
                           f'{n} x {opname(op)} sent, {got} replies; {ctx}')
-                else:
-                    r.ev('requests_answered_once', n)
             elif cls == 'unknown':
                 r.ev('unknown_opcodes_judged', n)
                 r.ev('oracle_evals', n)
@@ -457,6 +473,7 @@ class Pairing:
                   f'{confirmations} confirmations for {peer_indications} indications sent by the peer; {ctx}')
         self.window = []
         self.replies = []
+        return unanswered
 
     def complete(self) -> bool:
         """True when every defined request of the open window already has a reply
@@ -520,13 +537,20 @@ def write_refusal_codes(perm: int, enc: bool, auth: bool) -> set:
 
 
 # -----------------------------------------------------------------------------
-# Marker values: every attribute value is built from a 4-byte unit unique to the
-# attribute, so that any 4 consecutive value bytes (whatever the offset of a blob
-# read or the truncation of a response) identify the attribute.
+# Marker values: every attribute value is a repetition of a 4-byte unit unique to the
+# attribute: one tag byte (>= 0x80) followed by three bytes in 0x10..0x73 that spell the
+# attribute index in base 100.  The tag can only occur at the start of a unit, so the units
+# are self-synchronising: any run of 7 value bytes (whatever the offset of a blob read or the
+# truncation of a response) contains one whole unit and identifies the attribute.
 # -----------------------------------------------------------------------------
+TAG_ORIGINAL = 0xE7
+TAG_WRITTEN = 0xD3
+
+
 def marker_unit(index: int, written: bool = False) -> bytes:
-    lo, hi = index & 0xFF, (index >> 8) & 0x3F
-    return bytes([0xD3 if written else 0xE7, lo, 0x80 | hi | (0x40 if written else 0), lo ^ 0x5A])
+    assert 0 <= index < 1000000
+    return bytes([TAG_WRITTEN if written else TAG_ORIGINAL, 0x10 + index % 100, 0x10 + index // 100 % 100,
+                  0x10 + index // 10000 % 100])
 
 
 def marker_value(index: int, length: int, written: bool = False) -> bytes:
@@ -534,28 +558,26 @@ def marker_value(index: int, length: int, written: bool = False) -> bytes:
     return (u * (length // 4 + 1))[:length]
 
 
-def marker_windows(index: int, written: bool = False):
-    """The 4 rotations of the unit = every 4-byte window of a marker value."""
-    u = marker_unit(index, written) * 2
-    return [u[i:i + 4] for i in range(4)]
-
-
 class MarkerTable:
-    """window (4 bytes) -> attribute index, for every registered marker."""
+    """(index, written) -> key, for every registered marker."""
 
     def __init__(self):
-        self.table: dict[bytes, int] = {}
+        self.table: dict[tuple[int, bool], object] = {}
 
     def add(self, index: int, written: bool = False, key=None):
-        for w in marker_windows(index, written):
-            self.table[w] = index if key is None else key
+        self.table[(index, written)] = index if key is None else key
 
     def find(self, pdu: bytes) -> set:
-        """Keys of all markers of which 4 consecutive bytes appear in pdu."""
+        """Keys of all registered markers of which one whole unit appears in pdu."""
         hits = set()
         t = self.table
         for i in range(len(pdu) - 3):
-            k = t.get(pdu[i:i + 4])
-            if k is not None:
-                hits.add(k)
+            tag = pdu[i]
+            if tag != TAG_ORIGINAL and tag != TAG_WRITTEN:
+                continue
+            a, b, c = pdu[i + 1] - 0x10, pdu[i + 2] - 0x10, pdu[i + 3] - 0x10
+            if 0 <= a < 100 and 0 <= b < 100 and 0 <= c < 100:
+                k = t.get((a + 100 * b + 10000 * c, tag == TAG_WRITTEN))
+                if k is not None:
+                    hits.add(k)
         return hits
